@@ -27,6 +27,12 @@ def withDump (d : DS) (r : M (St (List Nat) × String)) : DS × String :=
   | .ok (s', out) => ({ d with s := s' }, out ++ " | " ++ dumpSt s' maxU)
   | .error f => (d, toString f)
 
+/-- lookups do not change the state: answer only -/
+def noDump (d : DS) (r : M String) : DS × String :=
+  match r with
+  | .ok out => (d, out)
+  | .error f => (d, toString f)
+
 def showRid : Option (List Nat) → String
   | none => "~"
   | some a => toHex a
@@ -58,15 +64,15 @@ def stepC04 (d : DS) (ws : List String) : DS × String :=
     | _, _ => (d, "bad-op")
   | ["search", h] =>
     match parseId h with
-    | some q => withDump d (do let (u, r) ← searchUserRaw env d.s q; pure (d.s, toString u ++ " " ++ showRid r))
+    | some q => noDump d (do let (u, r) ← searchUserRaw env d.s q; pure (toString u ++ " " ++ showRid r))
     | none => (d, "bad-op")
   | ["dosearch", h] =>
     match parseId h with
-    | some q => withDump d (do let (u, r) ← doSearchUserRaw env d.s q; pure (d.s, toString u ++ " " ++ showRid r))
+    | some q => noDump d (do let (u, r) ← doSearchUserRaw env d.s q; pure (toString u ++ " " ++ showRid r))
     | none => (d, "bad-op")
   | ["getuserid", u] =>
     match u.toInt? with
-    | some u => withDump d (do let r ← getUserID env d.s u; pure (d.s, match r with | none => "errinvaliduid" | some a => toHex a))
+    | some u => noDump d (do let r ← getUserID env d.s u; pure (match r with | none => "errinvaliduid" | some a => toHex a))
     | none => (d, "bad-op")
   | ["poke", which, i, v] =>
     match i.toNat?, v.toInt? with
